@@ -161,8 +161,15 @@ theorem remove_eq (d : Rec α β) (m : TreeImage α β) (key : α) :
           · simp only [h2, if_false, if_true]
             have hdef : ((none : Option Nat), (none : Option Bool), 0) = (default : Ancestor) := rfl
             simp only [hdef, remove_node_eq d _ _ h0]
-            generalize (if (rd d m nodeIndex).left = 0 ∧ (rd d m nodeIndex).right = 0 then 0
-              else if (rd d m nodeIndex).left ≠ 0 then (rd d m nodeIndex).left else (rd d m nodeIndex).right) = child
+            -- the only child (or none): written as a three-way choice, or collapsed to `if left ≠ 0 { left } else { right }`
+            obtain ⟨child, hc3, hc2, hc1⟩ : ∃ child,
+                (if (rd d m nodeIndex).left = 0 ∧ (rd d m nodeIndex).right = 0 then 0
+                  else if (rd d m nodeIndex).left ≠ 0 then (rd d m nodeIndex).left else (rd d m nodeIndex).right) = child ∧
+                (if (rd d m nodeIndex).left ≠ 0 then (rd d m nodeIndex).left else (rd d m nodeIndex).right) = child ∧
+                (if (rd d m nodeIndex).left = 0 ∧ (rd d m nodeIndex).right = 0 then 0 else child) = child := by
+              by_cases ha : (rd d m nodeIndex).left = 0 <;> by_cases hb' : (rd d m nodeIndex).right = 0 <;>
+                simp [ha, hb']
+            simp only [hc3, hc2, hc1]
             generalize path.getLast?.getD default = last
             obtain ⟨p, b, c⟩ := last
             cases p with
